@@ -14,7 +14,7 @@ Proof. exact groups_where. Qed.
 
 Example C08_nonvacuous :
   let T := {| t_fields := [(0, EAgg SUM (EField 9))]; t_groupby := None; t_res := 2; t_ret := 100; t_where := None |} in
-  let q := {| q_fields := None; q_groupby := None; q_period := 0; q_asof := 0; q_until := 0; q_where := Some 0%nat; q_now := 20 |} in
+  let q := {| q_fields := None; q_groupby := None; q_period := 0; q_asof := 0; q_until := 0; q_where := Some 0%nat; q_now := 20; q_vis := None; q_limit := None |} in
   let p ts w := {| tp_ts := ts; tp_dims := [(11, VBool w)]; tp_pt := {| p_vals := [(9, 1)]; p_md := [] |}; tp_flags := [w] |} in
   map o_ts (spec_rows T q [p 3 true; p 6 false; p 7 true]) = [4; 8].
 Proof. vm_compute. reflexivity. Qed.
